@@ -127,6 +127,10 @@ func genProfile(t *simrt.Tape, o genOpts) *profile.Profile {
 			f := p.Function[(i+j)%nf]
 			l.Line = append(l.Line, profile.Line{Function: f, Line: f.StartLine + int64(1+t.Choose(K, 5)), Column: int64(t.Choose(K, 3))})
 		}
+		if o.odd && t.Bool(K, 8) && len(l.Line) > 0 {
+			// line numbers far apart within one function / far beyond any source file
+			l.Line[len(l.Line)-1].Line = []int64{1 << 50, 1<<62 + 7, -5, 1 << 31}[t.Choose(K, 4)]
+		}
 		if o.odd && t.Bool(K, 10) {
 			l.Line = nil // unsymbolized
 		}
